@@ -676,3 +676,174 @@ impl Nest<'_> {
         r
     }
 }
+
+// ---------------------------------------------------------------------------------------------------------------
+// C09 witnesses: feature-gated dispatch, vector access in bounds, sibling tail tables
+// ---------------------------------------------------------------------------------------------------------------
+pub struct Feat {
+    pub sse2: bool,
+    pub avx2: bool,
+}
+
+#[cfg(target_arch = "x86_64")]
+#[target_feature(enable = "sse2")]
+pub unsafe fn vec_load_ok(a: &[u8]) -> i32 {
+    use std::arch::x86_64::{__m128i, _mm_loadu_si128, _mm_movemask_epi8};
+    let mut i = 0;
+    let mut acc = 0;
+    while i + 16 <= a.len() {
+        let v = unsafe { _mm_loadu_si128(a.as_ptr().add(i).cast::<__m128i>()) };
+        acc += unsafe { _mm_movemask_epi8(v) };
+        i += 16;
+    }
+    acc
+}
+
+#[cfg(target_arch = "x86_64")]
+#[target_feature(enable = "sse2")]
+pub unsafe fn vec_load_bad(a: &[u8]) -> i32 {
+    use std::arch::x86_64::{__m128i, _mm_loadu_si128, _mm_movemask_epi8};
+    let mut i = 0;
+    let mut acc = 0;
+    // the last iteration reads up to 15 bytes past the end
+    while i < a.len() {
+        let v = unsafe { _mm_loadu_si128(a.as_ptr().add(i).cast::<__m128i>()) };
+        acc += unsafe { _mm_movemask_epi8(v) };
+        i += 16;
+    }
+    acc
+}
+
+#[cfg(target_arch = "x86_64")]
+#[target_feature(enable = "avx2")]
+pub unsafe fn vec_store_other_len_bad(dest: &mut [u8], src: &[u8]) {
+    use std::arch::x86_64::{__m256i, _mm256_loadu_si256, _mm256_storeu_si256};
+    let mut i = 0;
+    // bounded by the source only: the store may run past `dest`
+    while i + 32 <= src.len() {
+        unsafe {
+            let v = _mm256_loadu_si256(src.as_ptr().add(i).cast::<__m256i>());
+            _mm256_storeu_si256(dest.as_mut_ptr().add(i).cast::<__m256i>(), v);
+        }
+        i += 32;
+    }
+}
+
+#[cfg(target_arch = "x86_64")]
+#[target_feature(enable = "avx2")]
+pub unsafe fn vec_store_min_ok(dest: &mut [u8], src: &[u8]) {
+    use std::arch::x86_64::{__m256i, _mm256_loadu_si256, _mm256_storeu_si256};
+    let len = dest.len().min(src.len());
+    let mut i = 0;
+    while i + 32 <= len {
+        unsafe {
+            let v = _mm256_loadu_si256(src.as_ptr().add(i).cast::<__m256i>());
+            _mm256_storeu_si256(dest.as_mut_ptr().add(i).cast::<__m256i>(), v);
+        }
+        i += 32;
+    }
+}
+
+#[cfg(target_arch = "x86_64")]
+pub fn dispatch_gate_ok(f: &Feat, d: &mut [u8], a: &[u8]) -> i32 {
+    if f.avx2 && a.len() >= 32 {
+        unsafe { vec_store_min_ok(d, a) };
+        1
+    } else if f.sse2 {
+        unsafe { vec_load_ok(a) }
+    } else {
+        0
+    }
+}
+
+#[cfg(target_arch = "x86_64")]
+pub fn dispatch_gate_bad(f: &Feat, d: &mut [u8], a: &[u8]) -> i32 {
+    // AVX2 code behind the SSE2 flag: illegal instruction on a host without AVX2
+    if f.sse2 && a.len() >= 32 {
+        unsafe { vec_store_min_ok(d, a) };
+        1
+    } else {
+        0
+    }
+}
+
+#[cfg(target_arch = "x86_64")]
+pub fn dispatch_ungated_bad(d: &mut [u8], a: &[u8]) {
+    if a.len() >= 32 {
+        unsafe { vec_store_min_ok(d, a) };
+    }
+}
+
+#[cfg(target_arch = "x86_64")]
+pub fn detect_ok() -> Feat {
+    Feat { sse2: is_x86_feature_detected!("sse2"), avx2: is_x86_feature_detected!("avx2") }
+}
+
+#[cfg(target_arch = "x86_64")]
+pub fn detect_swapped_bad() -> Feat {
+    Feat { sse2: is_x86_feature_detected!("sse2"), avx2: is_x86_feature_detected!("sse4.1") }
+}
+
+fn tail_fin(a: u32, b: u32, c: u32) -> u32 {
+    a ^ b.rotate_left(7) ^ c.rotate_left(13)
+}
+
+pub fn tail_ref(k: &[u8]) -> u32 {
+    let (mut a, mut b, mut c) = (1u32, 2u32, 3u32);
+    match k.len() {
+        3 => {
+            c = c.wrapping_add(u32::from(k[2]) << 16);
+            b = b.wrapping_add(u32::from(k[1]) << 8);
+            a = a.wrapping_add(u32::from(k[0]));
+        }
+        2 => {
+            b = b.wrapping_add(u32::from(k[1]) << 8);
+            a = a.wrapping_add(u32::from(k[0]));
+        }
+        1 => {
+            a = a.wrapping_add(u32::from(k[0]));
+        }
+        _ => {}
+    }
+    tail_fin(a, b, c)
+}
+
+pub fn tail_sibling_ok(k: &[u8]) -> u32 {
+    let (mut x, mut y, mut z) = (1u32, 2u32, 3u32);
+    match k.len() {
+        3 => {
+            x = x.wrapping_add(u32::from(k[0]));
+            y = y.wrapping_add(u32::from(k[1]) << 8);
+            z = z.wrapping_add(u32::from(k[2]) << 16);
+        }
+        2 => {
+            y = y.wrapping_add(u32::from(k[1]) << 8);
+            x = x.wrapping_add(u32::from(k[0]));
+        }
+        1 => {
+            x = x.wrapping_add(u32::from(k[0]));
+        }
+        _ => {}
+    }
+    tail_fin(x, y, z)
+}
+
+pub fn tail_sibling_bad(k: &[u8]) -> u32 {
+    let (mut a, mut b, mut c) = (1u32, 2u32, 3u32);
+    match k.len() {
+        3 => {
+            c = c.wrapping_add(u32::from(k[2]) << 8); // wrong shift in one arm only
+            b = b.wrapping_add(u32::from(k[1]) << 8);
+            a = a.wrapping_add(u32::from(k[0]));
+        }
+        2 => {
+            b = b.wrapping_add(u32::from(k[1]) << 8);
+            a = a.wrapping_add(u32::from(k[0]));
+        }
+        1 => {
+            a = a.wrapping_add(u32::from(k[0]));
+        }
+        _ => {}
+    }
+    tail_fin(a, b, c)
+}
